@@ -307,3 +307,28 @@ package tan
 //@ ensures n.snapshot.fileNum == fn || n.state.fileNum == fn ==> result
 //@ ensures forall i int :: 0 <= i && i < len(n.entries.entries) && n.entries.entries[i].fileNum == fn ==> result
 //@ loop 1 invariant forall i int :: 0 <= i && i <= $i ==> n.entries.entries[i].fileNum < fn
+
+// ---------------------------------------------------------------- tan: removing a replica's whole history (C20)
+// From the property: an imported (or installed) snapshot is the replica's WHOLE history. When the
+// old state is removed, every log file of the current version other than the MANIFEST and the
+// active log goes into the version edit as deleted -- nothing is kept because some in-memory
+// index happens (not) to reference it; a file left in the MANIFEST is read again on reopen and its
+// old entries reappear beyond the imported index.
+//@ func (d *db) createNewLog [C20]
+//@ trusted switches to a fresh log file (creates it, records it in the MANIFEST, syncs the directory)
+//@ func (d *db) updateReadStateLocked [C20]
+//@ trusted publishes the new read state (in-memory)
+//@ func (d *db) notifyDeleteObsoleteWorker [C20]
+//@ trusted wakes the background deleter
+//@ func (vs *versionSet) logLock [C20]
+//@ trusted MANIFEST write lock (condition variable)
+//@ modifies vs.writing
+//@ ensures vs.writing
+//@ func (n *nodeIndex) removeAll [C20]
+//@ trusted clears the in-memory index of the replica
+//@ modifies *n
+//@ func (d *db) removeAllLocked [C20]
+//@ noframe
+//@ nobounds
+//@ requires !gWriteFailed && !gReadFailed && !gDirDirty && gDirHandles[obj(d.dataDir)] && !gDirHandles[obj(d.mu.versions.manifestFile)]
+//@ loop 1 invariant ve.deletedFiles != nil && fresh(ve.deletedFiles) && (forall fn fileNum :: visited(fn) && fn != d.mu.versions.manifestFileNum && fn != d.mu.logNum ==> mk(deletedFileEntry, fn) in ve.deletedFiles)
